@@ -191,7 +191,9 @@ impl TapeCfg {
     pub fn new(ctx: &Ctx, quick_cases: u32, thorough_cases: u32, tape_max: usize) -> Self {
         let shards = 16;
         let scale: u32 = std::env::var("LC3V_QUICK_SCALE").ok().and_then(|s| s.parse().ok()).unwrap_or(10);
-        let total = ctx.tier.pick(quick_cases.saturating_mul(scale), thorough_cases.max(quick_cases.saturating_mul(scale)));
+        // the thorough tier multiplies its base size by THOROUGH_SCALE (10): minutes rather than seconds per property
+        let tscale: u32 = std::env::var("LC3V_THOROUGH_SCALE").ok().and_then(|s| s.parse().ok()).unwrap_or(10);
+        let total = ctx.tier.pick(quick_cases.saturating_mul(scale), thorough_cases.saturating_mul(tscale).max(quick_cases.saturating_mul(scale)));
         TapeCfg {
             shards,
             cases_per_shard: total.div_ceil(shards as u32),
